@@ -609,7 +609,84 @@ var Prop = &harness.Prop{
 		for i, top := range limbAlphabet(8, tier) {
 			u = append(u, limbUnit(top, i, tier))
 		}
-		u = append(u, miscUnit())
+		u = append(u, miscUnit(), extremePointsUnit())
 		return u
 	},
+}
+
+// ---- points with extreme coordinates ----------------------------------------------------------------
+//
+// The discrete-log walk never meets them: curve points whose x (or y) is 0, 1, p-1 or tiny. Because b
+// is a square modulo p the SM2 curve has the two finite points (0, +-sqrt(b)); for every small x whose
+// right-hand side is a square there are two more. Each such point P and its multiples 2P, 3P meet
+// every partner of a small set under Add / Double / ScalarMult / IsOnCurve; the reference group law
+// decides.
+func extremePointsUnit() harness.Unit {
+	return harness.Unit{Name: "extreme-coordinates", Run: func(c *harness.Ctx) {
+		curve := sm2.P256Sm2()
+		var pts []refsm2.Point
+		var names []string
+		xs := []*big.Int{big.NewInt(0), big.NewInt(1), big.NewInt(2), big.NewInt(3), big.NewInt(4), big.NewInt(5), new(big.Int).Sub(refsm2.P, big.NewInt(1)), new(big.Int).Sub(refsm2.P, big.NewInt(2)), new(big.Int).Sub(refsm2.P, big.NewInt(3)),
+			new(big.Int).Lsh(big.NewInt(1), 32), new(big.Int).Lsh(big.NewInt(1), 64), new(big.Int).Lsh(big.NewInt(1), 224), new(big.Int).Lsh(big.NewInt(1), 255)}
+		for _, x := range xs {
+			x = new(big.Int).Mod(x, refsm2.P)
+			// y^2 = x^3 + a x + b
+			rhs := new(big.Int).Exp(x, big.NewInt(3), refsm2.P)
+			rhs.Add(rhs, new(big.Int).Mul(refsm2.A, x))
+			rhs.Add(rhs, refsm2.B)
+			rhs.Mod(rhs, refsm2.P)
+			y := new(big.Int).ModSqrt(rhs, refsm2.P)
+			if y == nil {
+				continue
+			}
+			p := refsm2.Point{X: x, Y: y}
+			pts = append(pts, p, refsm2.Neg(p))
+			names = append(names, fmt.Sprintf("(x=%x, +y)", x), fmt.Sprintf("(x=%x, -y)", x))
+		}
+		if len(pts) < 2 {
+			c.Violate("extreme-coordinates:no-points", "no curve point with x = 0 found although b is a square", nil, nil)
+			return
+		}
+		partners := []refsm2.Point{refsm2.Infinity, refsm2.G(), refsm2.Neg(refsm2.G()), refsm2.Double(refsm2.G())}
+		pnames := []string{"inf", "G", "-G", "2G"}
+		for i, p := range pts {
+			for _, m := range []int64{1, 2, 3} {
+				q := refsm2.Mul(big.NewInt(m), p)
+				qn := fmt.Sprintf("%d*%s", m, names[i])
+				qx, qy := aff(q)
+				c.Add("evaluations", 1)
+				c.DistinctS("nontrivial", qn)
+				if !q.Inf && !curve.IsOnCurve(qx, qy) {
+					c.Violate("extreme-coordinates:isoncurve", fmt.Sprintf("IsOnCurve rejects %s = %s", qn, ptStr(qx, qy)), nil, nil)
+				}
+				if x, y := curve.Double(qx, qy); !same(x, y, refsm2.Double(q)) {
+					c.Violate("extreme-coordinates:double", fmt.Sprintf("Double(%s) = %s, the group law gives %s", qn, ptStr(x, y), refStr(refsm2.Double(q))), nil, nil)
+				}
+				all := append(append([]refsm2.Point{}, partners...), pts...)
+				alln := append(append([]string{}, pnames...), names...)
+				for j, r := range all {
+					rx, ry := aff(r)
+					want := refsm2.Add(q, r)
+					c.Add("evaluations", 2)
+					if x, y := curve.Add(qx, qy, rx, ry); !same(x, y, want) {
+						c.Violate("extreme-coordinates:add", fmt.Sprintf("Add(%s, %s) = %s, the group law gives %s", qn, alln[j], ptStr(x, y), refStr(want)), nil, nil)
+					}
+					if x, y := curve.Add(rx, ry, qx, qy); !same(x, y, want) {
+						c.Violate("extreme-coordinates:add", fmt.Sprintf("Add(%s, %s) = %s, the group law gives %s", alln[j], qn, ptStr(x, y), refStr(want)), nil, nil)
+					}
+				}
+				for _, k := range mulConsts {
+					want := refsm2.Mul(new(big.Int).Mod(k, refsm2.N), q)
+					c.Add("evaluations", 1)
+					if q.Inf {
+						continue
+					}
+					if x, y := curve.ScalarMult(qx, qy, k.Bytes()); !same(x, y, want) {
+						c.Violate("extreme-coordinates:scalarmult", fmt.Sprintf("ScalarMult(%s, %s) = %s, the group law gives %s", qn, constName(k), ptStr(x, y), refStr(want)), nil, nil)
+					}
+				}
+			}
+		}
+		c.Sample(fmt.Sprintf("%d curve points with x in {0, 1..5, p-1..p-3, 2^32, 2^64, 2^224, 2^255} (where the curve has them) and their doubles and triples, against 4 ordinary partners and each other", len(pts)))
+	}}
 }
